@@ -19,6 +19,7 @@ InputRels(Q) == { Q.rels[i].name : i \in { j \in DOMAIN Q.rels : Q.rels[j].input
 ColVals(Q, ty) ==
    CASE ty = "int" -> 0 .. (Q.dom - 1)
      [] ty = "opt" -> {None} \cup { Some(x) : x \in 0 .. (Q.dom - 1) }
+     [] ty \in {"max_i32", "dual_i32"} -> 0 .. (Q.dom - 1)
 
 RECURSIVE TuplesOver(_, _, _)
 TuplesOver(Q, cols, i) ==
@@ -35,6 +36,7 @@ Init == /\ pi \in 1..Len(Progs)
 
 AddInput(r, t) == /\ Size(inp) < P.bound
                   /\ t \notin inp[r]
+                  /\ IsLat(P, r) => \A u \in inp[r] : Front(u) # Front(t)     \* the caller gives one row per lattice key
                   /\ inp' = [inp EXCEPT ![r] = @ \cup {t}]
                   /\ UNCHANGED pi
 
